@@ -30,7 +30,8 @@ EXC = {"KeyboardInterrupt": KeyboardInterrupt, "RuntimeError": RuntimeError, "Va
 class Rig:
     """one sampler configuration; builds fresh objects for every run"""
 
-    def __init__(self, rnd, sampler_kind, integ="lf", n=2, mkind="unit", P=4, t=1, ext="h5", d=2):
+    def __init__(self, rnd, sampler_kind, integ="lf", n=2, mkind="unit", P=4, t=1, ext="h5", d=2, diagnostic=False):
+        self.diagnostic = diagnostic        # diagnostic_mode=True: every call of user code goes through the sampler's timing wrappers
         self.kind, self.integ, self.n, self.mkind, self.P, self.t, self.ext, self.d = sampler_kind, integ, n, mkind, P, t, ext, d
         self.seed = rnd.randrange(1 << 30)
         self.mu = [rnd.uniform(-1, 1) for _ in range(d)]
@@ -42,7 +43,7 @@ class Rig:
 
     def desc(self):
         return {"sampler": self.kind, "integrator": self.integ, "steps": self.n, "mass": self.mkind, "proposals": self.P, "thinning": self.t,
-                "backend": self.ext, "d": self.d, "seed": self.seed, "autotuning": self.autotune}
+                "backend": self.ext, "d": self.d, "seed": self.seed, "autotuning": self.autotune, "diagnostic_mode": self.diagnostic}
 
     def build(self):
         _, S, MM, D = _hm()
@@ -59,6 +60,8 @@ class Rig:
 
         s = Snap(seed=self.seed)
         kw = dict(stepsize=self.step, autotuning=self.autotune)
+        if self.diagnostic:
+            kw["diagnostic_mode"] = True
         mass = None
         if self.kind == "HMC":
             mass, _, _ = make_mass(random.Random(self.mass_rnd_seed), self.mkind, self.d)
@@ -180,8 +183,11 @@ def read_file(fn, ext):
 
 
 def rigs(rnd, tier):
-    out = [Rig(rnd, "RWMH", P=4, t=1, ext="h5"), Rig(rnd, "HMC", "lf", 2, "unit", P=3, t=1, ext="h5"), Rig(rnd, "RWMH", P=4, t=2, ext="npy")]
+    out = [Rig(rnd, "RWMH", P=4, t=1, ext="h5"), Rig(rnd, "HMC", "lf", 2, "unit", P=3, t=1, ext="h5"), Rig(rnd, "RWMH", P=4, t=2, ext="npy"),
+           Rig(rnd, rnd.choice(["RWMH", "HMC"]), "lf", 1, "diag", P=3, t=rnd.choice([1, 3]), ext="h5", diagnostic=True)]
     if tier == "thorough":
+        out.append(Rig(rnd, "HMC", "3s", 2, "full", P=4, t=2, ext="npy", diagnostic=True))
+        out.append(Rig(rnd, "RWMH", P=6, t=3, ext="npy", diagnostic=True))
         for integ in ("lf", "3s", "4s"):
             for ext in ("h5", "npy"):
                 for t in (1, 2, 3):
